@@ -173,8 +173,9 @@ Definition route_table : list row := [
      rt_steps := [SCheck; SAuth MWebUI; SSelfOrAdminU2F; SCheck; SMeth [POST]; SCheck; SEff EChange] |};
   {| rt_key := "runtimeState.webauthnAuthLogin"; rt_gate := GMask MAny XNone;
      rt_steps := [SAuth MAny; SCheck; SEff EStart] |};
+  (* POST only since the fix "only finish WebAuthn logins by POST" (the method test follows checkAuth) *)
   {| rt_key := "runtimeState.webauthnAuthFinish"; rt_gate := GMask MAny XNone;
-     rt_steps := [SAuth MAny; SCheck; SEff EChange; SEff ESigned] |};
+     rt_steps := [SAuth MAny; SMeth [POST]; SCheck; SEff EChange; SEff ESigned] |};
   {| rt_key := "runtimeState.VIPAuthHandler"; rt_gate := GMask MAny XNone;
      rt_steps := [SMeth gp; SCheck; SAuth MAny; SCheck; SEff ESigned] |};
   {| rt_key := "runtimeState.u2fTokenManagerHandler"; rt_gate := GMask MWebUI XSelfOrAdminU2F;
@@ -229,6 +230,10 @@ Definition manage_u2f_old_steps : list step :=
 (* the two registration-finish handlers before they insisted on POST (kept for c06_old_register_finish_refuted) *)
 Definition register_finish_old_steps : list step :=
   [SCheck; SAuth MWebUI; SSelfOrAdminU2F; SCheck; SEff EChange].
+
+(* the WebAuthn login finish before it insisted on POST (kept for c06_old_auth_finish_refuted) *)
+Definition auth_finish_old_steps : list step :=
+  [SAuth MAny; SCheck; SEff EChange; SEff ESigned].
 
 (* ---- structural checkers (decidable; soundness is proved in Proofs/AuthGate.v) ---- *)
 
